@@ -2,6 +2,7 @@
 //! library built from /repo's working tree and records traces for TLC to validate.
 
 mod c12;
+mod c13;
 mod c16;
 mod c17;
 mod plugins;
@@ -23,6 +24,7 @@ fn main() {
         "split" => c16::run_split(rest),
         "classify" => c17::run(rest),
         "dispatch" => c12::run(rest),
+        "validate" => c13::run(rest),
         "parse1" => {
             // parse one full message (file) as type --mt and print the outcome
             let mt = util::arg(rest, "--mt").expect("--mt");
